@@ -435,7 +435,7 @@ package stun
 
 //@ func MessageIntegrity.Check
 //@   safety C07 C04
-//@   props C07
+//@   props C07 C04
 //@   requires msg != nil && DecodedViews(msg) && DecodedContent(msg) && region(i) != region(msg.Raw)
 //@   assigns msg.Length, mem(msg.Raw), gmap(hstate)
 //@   allocates
@@ -866,6 +866,7 @@ package stun
 
 //@ props C14
 //@ guard Agent.mux: transactions, closed, handler
+//@ shared Agent: sync mux
 
 // Event log (ghost): every handler invocation appends (transaction id, error, message) at index ev_n.
 //@ func Handler(h, e)
@@ -1352,6 +1353,9 @@ package stun
 // goroutines are NOT explored: the lock discipline below and the per-call contracts are the sequential half of the argument.
 //@ props C10 C15
 //@ guard Client.mux: t, closed
+// every other field of the shared Client is either only accessed through sync/atomic, never written once the client
+// has been built (constructor and options run before it is shared), or a synchronisation object used through its methods
+//@ shared Client: atomic rto, maxAttempts; frozen c, a, close, rtoRate, closeConn, clock, handler, collector; sync wg, mux
 
 // ClientInv: initialised client, mutex free, every registered transaction carries its key.
 //@ define ClientInv(c) = c != nil && gmap(held)[region(c)] == 0 && region(c.t) != 0
@@ -1623,8 +1627,17 @@ package stun
 //@   ensures c != nil && c.c != nil && c.a != nil && c.close != nil && old(c.closed) ==> result == ErrClientClosed && Writes(0) && SameClientTable(c)
 
 //@ func (*Client).SetRTO
-//@   safety C11
+//@   safety C11 C15
 //@   props C11
 //@   requires c != nil
 //@   assigns c.rto
 //@   ensures c.rto == rto
+
+// option usable only while the client is being built (NewClient applies options before the client is shared)
+//@ func WithNoRetransmit
+//@   safety C15
+//@   props C11
+//@   constructs
+//@   requires c != nil
+//@   assigns c.maxAttempts, c.rto
+//@   ensures c.maxAttempts == 0 && (old(c.rto) != 0 ==> c.rto == old(c.rto)) && (old(c.rto) == 0 ==> c.rto == 2100000000)
